@@ -214,6 +214,18 @@ def run(ctx):
 
 def replay(ctx, r):
     case = C.unjsonable(r.get('replay', r))
+    if case.get('kernel') == 'simple':
+        from . import c19
+        for fam in ('threads', 'asyncio'):
+            print(fam, c19.run_parity_program(fam, case['program']))
+        return 0
+    if case.get('kernel') == 'client':
+        from .. import client_cases as K
+        base = K.case_from_json(case['case'])
+        for mode in ('threading', 'asyncio'):
+            recs, _ = K.exec_case(dict(base, mode=mode))
+            print(mode, [K.canon_impl(x) for x in recs][-3:])
+        return 0
     t1, _ = S.execute_impl('threading', case['cfg'], case['ops'], active=case.get('active', False))
     t2, _ = S.execute_impl('asyncio', case['cfg'], case['ops'], case.get('coro', False), active=case.get('active', False))
     for i, (o, a, b) in enumerate(zip(case['ops'], t1, t2)):
